@@ -296,6 +296,10 @@ def gen_c08_case(rng: random.Random) -> Dict[str, Any]:
     return {
         "params": params, "supplied": supplied, "async": rng.random() < 0.6,
         "validate": rng.random() < 0.75, "fmt": rng.choice(FORMATS), "late_register": rng.random() < 0.3,
+        # an earlier message for the same task on the same worker whose values cannot be converted
+        "prior_inconvertible": rng.random() < 0.2,
+        # a shared-registry task of the same name with other annotations (the worker's own task has priority)
+        "shadow_shared": rng.random() < 0.15,
     }
 
 
@@ -376,6 +380,26 @@ def run_c08(case: Dict[str, Any]) -> "tuple[List[Violation], Dict[str, Any]]":
     if case.get("late_register"):
         # the receiver exists before the task is registered (dynamic registration / InMemoryBroker)
         early_receiver = Receiver(broker, executor=_EXEC, validate_params=case["validate"], max_async_tasks=1, run_startup=False)
+    shadow_registered = False
+    if case.get("shadow_shared") and not case.get("late_register"):
+        from taskiq.brokers.shared_broker import AsyncSharedBroker
+
+        names_ = [p["name"] for p in case["params"]]
+        ns2: Dict[str, Any] = {}
+        exec("def gen_task(" + ", ".join(f"{n}: float = 0.5" for n in names_) + "):\n    raise RuntimeError('shared shadow executed')\n", ns2)  # noqa: S102
+        ns2["gen_task"].__module__ = "mon.args_labels"
+        AsyncSharedBroker().register_task(ns2["gen_task"], task_name="gen_task")
+        shadow_registered = True
+    try:
+        return _run_c08_inner(case, fn, src, broker, early_receiver, v)
+    finally:
+        if shadow_registered:
+            from taskiq.abc.broker import AsyncBroker as _AB
+
+            _AB.global_task_registry.pop("gen_task", None)
+
+
+def _run_c08_inner(case: Dict[str, Any], fn: Any, src: str, broker: Any, early_receiver: Any, v: List[Violation]) -> "tuple[List[Violation], Dict[str, Any]]":
     task = broker.register_task(fn, task_name="gen_task")
     args = []
     kwargs = {}
@@ -405,8 +429,16 @@ def run_c08(case: Dict[str, Any]) -> "tuple[List[Violation], Dict[str, Any]]":
         v.append(Violation("wire-content", f"decoded args/kwargs {back.args!r} {back.kwargs!r} != sent {want_args!r} {want_kwargs!r}"))
     receiver = early_receiver or Receiver(broker, executor=_EXEC, validate_params=case["validate"], max_async_tasks=1, run_startup=False)
     del _REC[:]
+    prior = None
+    if case.get("prior_inconvertible"):
+        weird = ["inconvertible", {"x": None}]
+        pk = {p["name"]: weird for p in case["params"] if not p.get("dep") and (p["name"] in case["supplied"] or not p["default"])}
+        prior = broker.formatter.dumps(task.kicker()._prepare_message(**pk)).message
 
     async def main(loop: Any) -> None:
+        if prior is not None:
+            await receiver.callback(prior)
+            del _REC[:]
         await receiver.callback(bm.message)
 
     try:
@@ -454,7 +486,9 @@ class C08(Check):
             "kicker._prepare_message -> formatter.dumps -> loads -> Receiver.callback -> function. Oracle: every "
             "parameter receives (strict type+value equality) the sent value in wire form, or "
             "TypeAdapter(annotation).validate_python(sent) when annotated, validation on and conversion succeeds; "
-            "loads(dumps(m)) == m and decoded args equal an independent JSON/pickle model of what was sent. "
+            "loads(dumps(m)) == m and decoded args equal an independent JSON/pickle model of what was sent. A fifth of the "
+            "cases first processes a message with inconvertible values on the same Receiver; some register a shared "
+            "task of the same name with other annotations. "
             "Non-trivial: >=2 supplied arguments of which >=1 annotated; distinct = distinct (signature shape, "
             "split, value classes).")
     floors = {"counters.cli_command_lines": 30, "counters.api_receivers_built": 30, "counters.params_checked": 20000, "counters.annotated_converted": 2000}
